@@ -416,6 +416,64 @@ def scanStr (q : Nat) : List Nat → Nat → List Ch → Option (List Nat) × Na
     else if c.cp = 10 then (none, p, c :: r)           -- `Some('\n') | None => break`
     else scanStr q (c.cp :: acc) (p + c.len) r
 
+/-! ### what a string literal MEANS
+
+  `scanStr` is the loop of the code.  `litValue` is the specification it is measured against
+  (`LexStrProps`): the value denoted by the source characters BETWEEN the delimiters, as a function of
+  those characters (code points) alone —
+
+  * the delimiter written twice stands for one delimiter,
+  * a backslash and the character after it stand for what the escape table of the code says,
+  * every other character stands for itself.  In particular the quote character that is NOT the delimiter
+    is an ordinary character, however many of them stand next to each other: `'{"name":""}'` is the eleven
+    characters between the apostrophes, `"it''s"` has two apostrophes.
+
+  A lone delimiter, a raw newline and a backslash at the very end are not part of any body (`none`): the first
+  ends the literal, the other two leave it unterminated. -/
+
+def litValue (q : Nat) : List Nat → Option (List Nat)
+  | [] => some []
+  | c :: r =>
+    if c = q then
+      match r with
+      | d :: r' => if d = q then (litValue q r').map (q :: ·) else none
+      | [] => none
+    else if c = 92 then
+      match r with
+      | d :: r' => (litValue q r').map (escape d ++ ·)
+      | [] => none
+    else if c = 10 then none
+    else (litValue q r).map (c :: ·)
+
+/-- the canonical spelling of one character of a value inside a literal delimited by `q`: the delimiter is
+    doubled, a backslash is doubled, a newline is written `\n`, every other character is written as it is -/
+def renderCp (q c : Nat) : List Nat :=
+  if c = q then [q, q] else if c = 92 then [92, 92] else if c = 10 then [92, 110] else [c]
+
+/-- the canonical renderer: the body (the characters to put between two `q`s) of a literal with value `v` -/
+def litRender (q : Nat) (v : List Nat) : List Nat := v.flatMap (renderCp q)
+
+/-- REGRESSION VARIANT, kept for a witness only (`LexStrProps.either_quote_collapses_witness`): the arm for the
+    DELIMITING quote widened to both quote characters —
+    `Some(c @ ('\'' | '"')) => { advance; if peek == Some(c) { advance; push(c) } else if c == quote { terminated }
+    else { push(c) } }`.  A doubled quote character of the kind that is NOT the delimiter collapses to one. -/
+def scanStrEitherQuoteCollapses (q : Nat) : List Nat → Nat → List Ch → Option (List Nat) × Nat × List Ch
+  | _, p, [] => (none, p, [])
+  | acc, p, c :: r =>
+    if c.cp = 39 ∨ c.cp = 34 then
+      match r with
+      | d :: r' =>
+        if d.cp = c.cp then scanStrEitherQuoteCollapses q (c.cp :: acc) (p + c.len + d.len) r'
+        else if c.cp = q then (some acc.reverse, p + c.len, d :: r')
+        else scanStrEitherQuoteCollapses q (c.cp :: acc) (p + c.len) (d :: r')
+      | [] => if c.cp = q then (some acc.reverse, p + c.len, []) else (none, p + c.len, [])
+    else if c.cp = 92 then
+      match r with
+      | d :: r' => scanStrEitherQuoteCollapses q ((escape d.cp).reverse ++ acc) (p + c.len + d.len) r'
+      | [] => (none, p + c.len, [])
+    else if c.cp = 10 then (none, p, c :: r)
+    else scanStrEitherQuoteCollapses q (c.cp :: acc) (p + c.len) r
+
 /-- one- and two-character operators: (variant, characters consumed after the first) -/
 def punct (c : Nat) (next : Option Nat) : Option (String × Bool) :=
   if c = 43 then some ("Plus", false)
